@@ -7,9 +7,10 @@ import re
 import engine
 from common import ML, Rng, sh
 
+KIND_LETTER = {'message': 'm', 'start': 's', 'complete': 'c', 'error': 'e'}
 FIELD_VALUES = {
     'type': ['workflow', 'step', 'act'],
-    'state': ['created', 'completed'],
+    'state': ['created', 'completed', 'error'],
     'tag': ['mt', 'x1', 'ta', 'tb', ''],
     'key': ['k1', 'ab', 'ac', ''],
     'uses': ['acts.core.irq', 'acts.core.msg', ''],
@@ -110,17 +111,18 @@ def run(seed, n, workdir):
         for _ in range(3 + r.below(9)):
             x = r.below(100)
             if x < 45:
-                o = {'id': r.pick(ids)}
+                # a channel registers handlers of four kinds under one id: messages, process start, completion, error
+                o = {'id': r.pick(ids), 'h': r.pick(['message'] * 6 + ['start', 'complete', 'complete', 'error'])}
                 for f in FIELD_VALUES:
-                    o[f] = gen_pattern(r, f) if r.chance(60) else '*'
+                    o[f] = gen_pattern(r, f) if r.chance(60 if o['h'] == 'message' else 25) else '*'
                 ops.append({'on': o})
             elif x < 55:
                 ops.append({'close': r.pick(ids)})
             elif x < 62:
                 ops.append({'unsub': r.pick(ids)})
             else:
-                ops.append({'run': 1})
-        ops.append({'run': 1})
+                ops.append({'run': 2 if r.chance(25) else 1})
+        ops.append({'run': 2 if r.chance(25) else 1})
         cases.append({'id': f"h{k}", 'ops': ops})
     cp = os.path.join(workdir, 'cases.jsonl')
     open(cp, 'w').write("".join(json.dumps(c) + "\n" for c in cases))
@@ -132,6 +134,7 @@ def run(seed, n, workdir):
     # the model sees the same registrations and the messages the engine emitted
     mi = os.path.join(workdir, 'model.in')
     expect_impl = {}
+    kinds = {}
     with open(mi, 'w') as f:
         for c in cases:
             f.write(f"case {c['id']}\n")
@@ -141,40 +144,45 @@ def run(seed, n, workdir):
                 if l.startswith('RUN '):
                     cur = {'E': [], 'H': {}}
                     runs.append(cur)
-                elif l.startswith('E ') and cur is not None:
-                    cur['E'].append(json.loads(l[2:]))
-                elif l.startswith('H ') and cur is not None:
-                    _, ch, mid = l.split(' ')
-                    cur['H'].setdefault(mid, []).append(ch)
+                elif l[0] == 'E' and l.split(' ')[0] in ('E', 'ES', 'EC', 'EE') and cur is not None:
+                    tag, js = l.split(' ', 1)
+                    cur['E'].append(({'E': 'm', 'ES': 's', 'EC': 'c', 'EE': 'e'}[tag], json.loads(js)))
+                elif l[0] == 'H' and l.split(' ')[0] in ('H', 'HS', 'HC', 'HE') and cur is not None:
+                    tag, ch, mid = l.split(' ')
+                    cur['H'].setdefault(({'H': 'm', 'HS': 's', 'HC': 'c', 'HE': 'e'}[tag], mid), []).append(ch)
             ri = 0
             for opx in c['ops']:
                 if 'on' in opx:
                     o = opx['on']
-                    f.write(f"on {o['id']} {tokens(o['type'])} {tokens(o['state'])} {tokens(o['tag'])} {tokens(o['key'])} {tokens(o['uses'])}\n")
+                    f.write(f"on {KIND_LETTER[o.get('h', 'message')]} {o['id']} {tokens(o['type'])} {tokens(o['state'])} {tokens(o['tag'])} {tokens(o['key'])} {tokens(o['uses'])}\n")
                 elif 'close' in opx or 'unsub' in opx:
                     f.write(f"close {opx.get('close') or opx.get('unsub')}\n")
                 else:
                     if ri < len(runs):
-                        for m in runs[ri]['E']:
-                            f.write(f"emit {m['id']} {enc(m['type'])} {enc(m['state'])} {enc(m['tag'])} {enc(m['model_tag'])} {enc(m['key'])} {enc(m['uses'])}\n")
-                            expect_impl[(c['id'], m['id'])] = (sorted(runs[ri]['H'].get(m['id'], [])), m, ri)
+                        for k, m in runs[ri]['E']:
+                            f.write(f"emit {k} {m['id']} {enc(m['type'])} {enc(m['state'])} {enc(m['tag'])} {enc(m['model_tag'])} {enc(m['key'])} {enc(m['uses'])}\n")
+                            expect_impl[(c['id'], k, m['id'])] = (sorted(runs[ri]['H'].get((k, m['id']), [])), m, ri)
+                            kinds[k] = kinds.get(k, 0) + 1
                     ri += 1
     rc, out, _ = sh([os.path.join(ML, 'driver_chan'), mi], timeout=600)
     if rc != 0:
         raise RuntimeError('model driver failed: ' + out[-400:])
     dis, ok, total, delivered = [], 0, 0, 0
+    # every handler invocation the implementation reports has to be one the model was asked about
+    asked = set(expect_impl)
     bad_cases = set()
     for l in out.splitlines():
-        m = re.match(r'case (\S+): (\S+)(.*)$', l)
+        m = re.match(r'case (\S+): (\S) (\S+)(.*)$', l)
         if not m:
             continue
-        cid, mid, rest = m.group(1), m.group(2), sorted(m.group(3).split())
+        cid, k, mid, rest = m.group(1), m.group(2), m.group(3), sorted(m.group(4).split())
         total += 1
-        got, msg, ri = expect_impl[(cid, mid)]
+        got, msg, ri = expect_impl[(cid, k, mid)]
         delivered += len(got)
         if got != rest:
             bad_cases.add(cid)
-            dis.append({'case': next(c for c in cases if c['id'] == cid), 'message': msg, 'run': ri, 'model': rest, 'impl': got})
+            dis.append({'case': next(c for c in cases if c['id'] == cid), 'kind': k, 'message': msg, 'run': ri, 'model': rest, 'impl': got})
     stats = {'cases': n, 'messages': total, 'deliveries': delivered, 'traces_validated_against_impl': n - len(bad_cases),
-             'ops': {k: sum(1 for c in cases for o in c['ops'] if k in o) for k in ('on', 'close', 'unsub', 'run')}}
+             'ops': {k: sum(1 for c in cases for o in c['ops'] if k in o) for k in ('on', 'close', 'unsub', 'run')},
+             'events_by_kind': kinds, 'handler_kinds': {h: sum(1 for c in cases for o in c['ops'] if 'on' in o and o['on'].get('h', 'message') == h) for h in KIND_LETTER}}
     return {'cases': cases, 'disagreements': dis, 'stats': stats}
